@@ -115,7 +115,14 @@ type CycleWorld struct {
 	Trace    []TraceEv
 	curAct   int64
 	PropSnap func() proportion.VerifSnapshot
+	// Closes: trace positions at which allocate closed a statement that was not ready (it asked
+	// JobPipelined): a placement of the same job after such a position belongs to a NEW attempt
+	Closes []int
 }
+
+// PreOpenHook, when set, runs on the finished snapshot right before the session is opened (used by
+// C01 to apply a PodGroup update to an already built JobInfo, or to script the cache).  Nil by default.
+var PreOpenHook func(cw *CycleWorld, snap *api.ClusterInfo)
 
 func (q QueueSpec) Object() *scheduling.Queue {
 	qq := &scheduling.Queue{
@@ -238,6 +245,10 @@ func NewCycleWorld(spec CycleSpec) *CycleWorld {
 	if spec.Proportion {
 		tiers = append(tiers, conf.Tier{Plugins: []conf.PluginOption{opt(proportion.PluginName)}})
 	}
+	w.Rec.OnJobPipelined = func(j *api.JobInfo) { cw.Closes = append(cw.Closes, len(cw.Trace)) }
+	if PreOpenHook != nil {
+		PreOpenHook(cw, snap)
+	}
 	w.Ssn = framework.OpenSession(w.Cache, tiers, nil)
 	return cw
 }
@@ -287,7 +298,14 @@ func (cw *CycleWorld) Reconstruct() []Cop {
 			cur = nil
 		}
 	}
+	ci := 0
 	for i, e := range cw.Trace {
+		// allocate closed a statement without committing it (kept or about to be discarded) before
+		// this event: what follows is a new attempt even for the same job in the same action
+		for ci < len(cw.Closes) && cw.Closes[ci] <= i {
+			closed = true
+			ci++
+		}
 		act := cw.Spec.Actions[e.Action-1]
 		placing := e.Kind == 1 && (e.Status == SAllocated || e.Status == SPipelined)
 		job := cw.TSpec[e.Task].Job
